@@ -32,6 +32,8 @@ QUERIES_FILE = ["entry offset", "entry ?TAG_typedef offset", "entry ?TAG_base_ty
                 "entry ?AT_location [attribute ?AT_location value]", "entry attribute ?AT_name dup value", "unit root", "entry (|D| D D name)",
                 "0 0 aset, 1 5 aset 7 9 aset add", "entry ?AT_location (@AT_location address, @AT_location elem offset)", "raw entry", "raw entry attribute",
                 # ELF symbols: the CLI's own symbol line (index, value, size, type / binding / visibility of the file's machine, name)
+                # units and DIEs (and strings with unprintable bytes) printed one after the other: what one printer does to the stream must not show in the next
+                "(unit, entry)", "unit (|U| U, U root)", '[unit, entry ?root, "\\x02"]', '(unit, "a\\x02b", entry ?root)',
                 "symbol", "[symbol (pos < 5)]", "symbol (pos < 3) (name, label, size)"]
 ARGS = [("-a", "x"), ("-a", "hello"), ("-a", "a%%b"), ("-a", "%s"), ("-a", "<%s>"), ("-a", "%( 1 %)"), ("-a", 'q"q'), ("-a", "b\\s"), ("-a", "100%"), ("-a", ""),
         ("-a", "two words"), ("-a", "%d=%x"), ("-a", "line\nbreak"), ("-a", "\\x41"), ("-a", "caf\u00e9"), ("--a", "1"), ("--a", "(1, 2)"), ("--a", "(1, 2, 3)"), ("--a", "!()"), ("--a", '"s"'), ("--a", '("p", "q")'), ("--a", "0x10"),
